@@ -11,13 +11,14 @@ RULE = ("EXHAUSTIVE: for rule in {OneOfMany, AtMostOne, AnyOfMany} x n in 1..5 s
         "(via default_on; for OneOfMany also all-Off), breadth-first over the state graph of a real generated driver: each node is "
         "installed with reset_selected_values, then EVERY operation is applied - client write On/Off to one switch (real "
         "newSwitchVector through the real Router), client writes naming 2 and 3 switches with every value combination, driver "
-        ".value= / .bool_value= on every switch, selected_value= for every switch and selected_values= for every subset. After each "
+        ".value= / .bool_value= on every switch, selected_value= for every switch and selected_values= for every subset; every client write also with an injected fault (a Change handler "
+        "raises, delivery to a client raises) and with a Write handler that prevents the default and then publishes the vector as Busy. After each "
         "operation the state tuple and the children of every setSwitchVector published during it are judged against the rule "
         "invariants. non-trivial = every (node, operation) pair; distinct = hash(rule, n, node, operation)")
 ASSUMPTIONS = ["the exact successor of a multi-switch write is left open (only the invariants are demanded)",
                "bulk selection of several switches under OneOfMany/AtMostOne must keep the invariants and must not raise"]
 REQUIRED_EVENTS = ["states", "transitions", "published_updates_judged", "client_writes", "driver_assignments", "bulk_selections",
-                   "client_writes_with_injected_fault"]
+                   "client_writes_with_injected_fault", "client_writes_prevented_by_a_write_handler"]
 EXHAUSTIVE_NOTE = "the complete reachable state graph for every rule, 1..5 switches (thorough: 1..7) and every initial configuration, every operation on every node"
 SHARDED = True
 RULES = ["OneOfMany", "AtMostOne", "AnyOfMany"]
@@ -51,6 +52,9 @@ def operations(n):
         if op[0] in ("client1", "clientN"):
             ops.append(("fault-change",) + op)
             ops.append(("fault-delivery",) + op)
+            # the documented "commit once the hardware confirmed" pattern: a Write handler of the driver prevents the default
+            # (nothing is stored), the driver then publishes the vector as Busy
+            ops.append(("fault-veto",) + op)
     return ops
 
 
@@ -92,7 +96,7 @@ def explore(ctx, rule, n, init, explored=None):
         default_on = default_on[0] if default_on else None
     spec = make_spec(rule, n, default_on or None)
     router = Router()
-    faults = {"change": False, "delivery": False}
+    faults = {"change": False, "delivery": False, "veto": False}
 
     def leaf_hook(ns, defs):
         from indi.device import events
@@ -103,6 +107,11 @@ def explore(ctx, rule, n, init, explored=None):
             if faults["change"]:
                 raise RuntimeError("failpoint: Change handler raises")
         ns["failing_change"] = on(sources if len(sources) > 1 else sources[0], events.Change)(failing_change)
+
+        def deferring_write(self, event):
+            if faults["veto"]:
+                event.prevent_default = True
+        ns["deferring_write"] = on(sources if len(sources) > 1 else sources[0], events.Write)(deferring_write)
 
     drv = D.build(spec, leaf_hook=leaf_hook)(router=router)
     rec = devmon.RecClient()
@@ -137,7 +146,7 @@ def explore(ctx, rule, n, init, explored=None):
             case = dict(cfg, node=list(node), op=[op[0]] + [list(x) if isinstance(x, tuple) else x for x in op[1:]])
             ctx.count("transitions")
             ctx.count({"client1": "client_writes", "clientN": "client_writes", "value": "driver_assignments", "bool": "driver_assignments",
-                       "selected": "bulk_selections", "selecteds": "bulk_selections", "fault-change": "client_writes", "fault-delivery": "client_writes"}[op[0]])
+                       "selected": "bulk_selections", "selecteds": "bulk_selections", "fault-change": "client_writes", "fault-delivery": "client_writes", "fault-veto": "client_writes"}[op[0]])
             ctx.case_fast((rule, n, node, op))
             fault = None
             if op[0].startswith("fault-"):
@@ -149,8 +158,11 @@ def explore(ctx, rule, n, init, explored=None):
                     faults[fault] = True
                 try:
                     apply_op(router, rec, drv, vec, n, op)
+                    if fault == "veto":
+                        ctx.count("client_writes_prevented_by_a_write_handler")
+                        vec.state_ = "Busy"          # what a deferring driver publishes next
                 finally:
-                    faults["change"] = faults["delivery"] = False
+                    faults["change"] = faults["delivery"] = faults["veto"] = False
             except Exception as e:
                 ctx.violate(f"operation-raises:{op[0]}:{type(e).__name__}", f"{op} in state {node} raised {e!r}", case)
                 continue
